@@ -138,4 +138,18 @@ CHECKS = {
                          'float rounding is a parameter: floats are only compared with strconv.ParseFloat in the harness'],
         'assumptions': ['numeric escapes (\\x, \\u, \\U, octal) are not modelled (skipped as unsupported)', 'negative exponents truncate toward zero as parser/y_test.go pins (1e-3 = 0)'],
     },
+    'C05': {
+        'lean_modules': ['Pangaea.Theorems.C05'],
+        'theorem_modules': ['Pangaea.Theorems.C05'],
+        'theorems': ['Pangaea.C05.findProp_eq_first_in_chain', 'Pangaea.C05.findOwner_eq_first_in_chain', 'Pangaea.C05.findProp_via_owner', 'Pangaea.C05.evalProp_spec',
+                     'Pangaea.C05.bear_proto', 'Pangaea.C05.bro_proto', 'Pangaea.C05.bear_lookup', 'Pangaea.C05.ancestors_chain', 'Pangaea.C05.chain_bear', 'Pangaea.C05.keys_are_own_public'],
+        'harness': ['C05'],
+        'shards': 8,
+        'spec_is_function': True,
+        'rule': 'random prototype forests built by histories of 1-6 object literals / bear / bro (deep chains favoured), own properties drawn from a 6-name pool with forced shadowing, kinds value / function / method / '
+                '_missing (callable and non-callable); 6 probes per forest among o.n(9), o.n, o[\'n], which, ancestors, kindOf?, keys, proto, for present / inherited / shadowed / absent / private / built-in names. '
+                'non-trivial = forest has more than one object; distinct by program text; probes of built-in properties other than their owner are skipped as unsupported',
+        'trusted_base': [KERNEL, AX, TIE, 'model Pangaea/Object/Proto.lean is a hand transcription of findprop.go / evalProp / evalCall / native Obj.pangaea (ancestors, bro, kindOf?, which) / Obj#keys'],
+        'assumptions': ['objects are immutable (C06), so a forest is a set of trees', 'built-in prototypes Obj and BaseObj are modelled only as owners of the probed built-in name (looked up in the live registry by the harness)'],
+    },
 }
